@@ -779,6 +779,19 @@ func (e *Exec) doNext(fr *Frame, st *State, x *ssa.Next) Value {
 	tt := x.Type().(*types.Tuple)
 	ok := e.fresh(SBool, "more")
 	tv.Vs = append(tv.Vs, ok)
+	if rg, isR := x.Iter.(*ssa.Range); isR && !x.IsString {
+		if mt, isMap := rg.X.Type().Underlying().(*types.Map); isMap {
+			if mi := mapInfoOf(mt); mi.ok {
+				m := e.term(fr, st, rg.X)
+				k := e.havocValue(mt.Key(), st.pc, "rk").(*Term)
+				e.assume(st.pc, Implies(ok, e.mapHas(st, m, mt, k)))
+				v := e.def(mi.vs, e.mapValue(st, m, mt, k))
+				e.assumeLoaded(st, mt.Elem(), v)
+				tv.Vs = append(tv.Vs, k, v)
+				return tv
+			}
+		}
+	}
 	for i := 1; i < tt.Len(); i++ {
 		t := tt.At(i).Type()
 		if t == nil || !validType(t) {
@@ -795,31 +808,6 @@ func validType(t types.Type) bool {
 		return false
 	}
 	return true
-}
-
-// ---------------------------------------------------------------------------
-// maps (abstract for now: lookups are unconstrained, updates only checked)
-
-func (e *Exec) mapInit(st *State, r *Term, t types.Type) {}
-
-func (e *Exec) mapLookup(fr *Frame, st *State, x *ssa.Lookup) Value {
-	e.hashKeyCheck(fr, st, x.Index, x)
-	mt := x.X.Type().Underlying().(*types.Map)
-	v := e.havocValue(mt.Elem(), st.pc, "mapv")
-	if x.CommaOk {
-		ok := e.fresh(SBool, "mapok")
-		// absent key gives the zero value
-		z := e.zeroOf(mt.Elem())
-		return &Tuple{Vs: []Value{e.iteValue(ok, v, z), ok}}
-	}
-	return v
-}
-
-func (e *Exec) mapUpdate(fr *Frame, st *State, x *ssa.MapUpdate) {
-	m := e.term(fr, st, x.Map)
-	e.safety(st, "safe:nilmap", render(x.Map, 0), Not(Eq(m, IntLit(0))), e.posOf(x))
-	e.assume(st.pc, Not(Eq(m, IntLit(0))))
-	e.hashKeyCheck(fr, st, x.Key, x)
 }
 
 // hashKeyCheck: a dynamic (interface) key must hold a hashable type.
